@@ -122,8 +122,14 @@ class Translator:
         if func.__name__ == "<lambda>":
             if code in self.lambda_names:
                 return self.lambda_names[code]
-            q = func.__qualname__.replace(".<locals>.", "__").replace("<lambda>", "lambda")
-            return "%s_L%d" % (q, code.co_firstlineno)
+            # a lambda that is not itself registered (a closure cell): named after its own text, not its line number
+            node, _ = self.fn_node(func)
+            words = {"*": "_times_", "/": "_div_", "+": "_plus_", "-": "_minus_", " ": "", ",": "_", "(": "_", ")": "_", ".": "_"}
+            t = "".join(words.get(c, c) for c in ast.unparse(node.body))
+            if not (t.replace("_", "a").isalnum() and t.isascii() and len(t) <= 40):
+                import hashlib
+                t = hashlib.sha1(ast.dump(node).encode()).hexdigest()[:8]
+            return "lambda_" + t
         q = func.__qualname__.replace(".<locals>.", "__")
         if not q.replace("_", "a").isalnum():
             raise Refuse("function name %r" % func.__qualname__)
